@@ -17,8 +17,9 @@
  * along with this program.  If not, see <https://www.gnu.org/licenses/>.
  */
 
-use rkyv::de::deserializers::SharedDeserializeMap;
 use rkyv::de::deserializers::SharedDeserializeMapError;
+use rkyv::de::SharedDeserializeRegistry;
+use rkyv::de::SharedPointer;
 use rkyv::ser::serializers::AlignedSerializer;
 use rkyv::ser::serializers::AllocScratch;
 use rkyv::ser::serializers::AllocScratchError;
@@ -68,7 +69,7 @@ pub(crate) fn from_aligned_slice<'a, Value>(slice: &'a [u8]) -> Result<Value, Rk
 where
     Value: rkyv::Archive,
     <Value as rkyv::Archive>::Archived:
-        rkyv::CheckBytes<DefaultValidator<'a>> + rkyv::Deserialize<Value, SharedDeserializeMap>,
+        rkyv::CheckBytes<DefaultValidator<'a>> + rkyv::Deserialize<Value, SizeCheckedSharedMap>,
 {
     let mut validator = rkyv::validation::validators::DefaultValidator::with_capacity(
         slice,
@@ -77,9 +78,103 @@ where
     let archived_data = rkyv::check_archived_root_with_context::<Value, _>(slice, &mut validator)
         .map_err(|e| RkyvDeserializeError::Validation(Box::new(e)))?;
 
-    let mut shared = SharedDeserializeMap::with_capacity(DEFAULT_DESERIALIZE_CAPACITY);
+    let mut shared = SizeCheckedSharedMap::with_capacity(DEFAULT_DESERIALIZE_CAPACITY);
     rkyv::Deserialize::<Value, _>::deserialize(archived_data, &mut shared)
         .map_err(RkyvDeserializeError::Deserialize)
+}
+
+/// A shared pointers registry for deserialization of untrusted archives.
+///
+/// `SharedDeserializeMap` finds an already deserialized shared value by the address of its
+/// archived form only, and rkyv validation checks only the type of pointers that share an
+/// address. So two archived `Rc<str>` that point to the same address with *different* lengths
+/// pass validation, and the second one is deserialized as a pointer to the first (shorter)
+/// allocation with the longer length: an out-of-bounds read of the heap. This registry also
+/// remembers the size of the archived value and refuses such a pointer.
+pub(crate) struct SizeCheckedSharedMap {
+    shared_pointers: std::collections::HashMap<*const u8, (usize, Box<dyn SharedPointer>)>,
+}
+
+impl SizeCheckedSharedMap {
+    fn with_capacity(capacity: usize) -> Self {
+        Self {
+            shared_pointers: std::collections::HashMap::with_capacity(capacity),
+        }
+    }
+}
+
+impl rkyv::Fallible for SizeCheckedSharedMap {
+    type Error = SharedDeserializeMapError;
+}
+
+impl SharedDeserializeRegistry for SizeCheckedSharedMap {
+    fn get_shared_ptr(&mut self, ptr: *const u8) -> Option<&dyn SharedPointer> {
+        self.shared_pointers.get(&ptr).map(|(_, p)| p.as_ref())
+    }
+
+    fn add_shared_ptr(
+        &mut self,
+        ptr: *const u8,
+        shared: Box<dyn SharedPointer>,
+    ) -> Result<(), Self::Error> {
+        // the size isn't known here; deserialize_shared below is the only entry point
+        match self.shared_pointers.entry(ptr) {
+            std::collections::hash_map::Entry::Occupied(_) => {
+                Err(SharedDeserializeMapError::DuplicateSharedPointer(ptr))
+            }
+            std::collections::hash_map::Entry::Vacant(e) => {
+                e.insert((0, shared));
+                Ok(())
+            }
+        }
+    }
+
+    // this is the default implementation from rkyv plus the size check
+    #[allow(unsafe_code)]
+    fn deserialize_shared<T, P, F, A>(
+        &mut self,
+        value: &T::Archived,
+        to_shared: F,
+        alloc: A,
+    ) -> Result<*const T, Self::Error>
+    where
+        T: rkyv::ArchiveUnsized + ?Sized,
+        P: SharedPointer + 'static,
+        F: FnOnce(*mut T) -> P,
+        A: FnMut(std::alloc::Layout) -> *mut u8,
+        T::Archived: rkyv::DeserializeUnsized<T, Self>,
+    {
+        use rkyv::DeserializeUnsized;
+
+        let ptr = value as *const T::Archived as *const u8;
+        let archived_size = std::mem::size_of_val(value);
+        let metadata = T::Archived::deserialize_metadata(value, self)?;
+
+        if let Some((size, shared_pointer)) = self.shared_pointers.get(&ptr) {
+            if *size != archived_size {
+                return Err(SharedDeserializeMapError::DuplicateSharedPointer(ptr));
+            }
+            return Ok(ptr_meta::from_raw_parts(
+                shared_pointer.data_address(),
+                metadata,
+            ));
+        }
+
+        // SAFETY: the same call with the same arguments as in the default implementation:
+        // `value` comes from a validated archive and `alloc` is provided by rkyv
+        let deserialized_data = unsafe { value.deserialize_unsized(self, alloc)? };
+        let shared_ptr = to_shared(ptr_meta::from_raw_parts_mut(deserialized_data, metadata));
+        let data_address = shared_ptr.data_address();
+
+        if self
+            .shared_pointers
+            .insert(ptr, (archived_size, Box::new(shared_ptr)))
+            .is_some()
+        {
+            return Err(SharedDeserializeMapError::DuplicateSharedPointer(ptr));
+        }
+        Ok(ptr_meta::from_raw_parts(data_address, metadata))
+    }
 }
 
 #[allow(dead_code)]
